@@ -511,13 +511,13 @@ type Cond struct {
 }
 
 type Item struct {
-	kind, op                 string
-	src, dst, denom, amount  string
-	args                     []string
-	conds                    []Cond
-	inLoop, cache            bool
-	fn                       string
-	line                     int
+	kind, op                string
+	src, dst, denom, amount string
+	args                    []string
+	conds                   []Cond
+	inLoop, cache           bool
+	fn                      string
+	line                    int
 }
 
 type Escape struct {
@@ -1776,49 +1776,92 @@ func main() {
 					if !c.pol {
 						p = "-"
 					}
-					fmt.Printf("          %s %s: %s\n", p, c.kind, c.text)
+					fmt.Printf("          %s %s: %s\n", p, c.kind, clip(c.text, 300))
 				}
 			}
 		}
 		return
 	}
 
-	var b strings.Builder
-	b.WriteString("/-! GENERATED by extract/effects from the comdex source tree — do not edit; regenerated on every run.\n")
-	b.WriteString("Ordered effect skeleton of every covered handler. Item kinds: bank | write | call | guard (see extract/effects/main.go).\n")
-	b.WriteString("Cond kinds: if | case | loop | exit | continue | break | closure; pol = the condition holds on the item's path. -/\n")
-	b.WriteString("namespace Comdex.Gen.Effects\n\n")
-	b.WriteString("structure Cond where\n  kind : String\n  pol : Bool\n  text : String\n  deriving Repr, DecidableEq\n\n")
-	b.WriteString("structure Item where\n  kind : String\n  op : String\n  src : String\n  dst : String\n  denom : String\n  amount : String\n  args : List String\n  conds : List Cond\n  inLoop : Bool\n  cache : Bool\n  fn : String\n  line : Nat\n  deriving Repr, DecidableEq\n\n")
-	b.WriteString("structure Handler where\n  module : String\n  name : String\n  file : String\n  line : Nat\n  items : List Item\n  deriving Repr\n\n")
-	for _, h := range hs {
-		fmt.Fprintf(&b, "def h_%s_%s : Handler := { module := %s, name := %s, file := %s, line := %d, items := [\n", h.module, h.name, q(h.module), q(h.name), q(h.file), h.line)
-		for i, it := range h.items {
-			sep := ","
-			if i == len(h.items)-1 {
-				sep = ""
-			}
-			fmt.Fprintf(&b, "  ⟨%s, %s, %s, %s, %s, %s, %s, %s, %s, %s, %s, %d⟩%s\n", q(it.kind), q(it.op), q(clip(it.src, 240)), q(clip(it.dst, 240)), q(clip(it.denom, 240)), q(clip(it.amount, 300)),
-				strList(it.args), condList(it.conds), bl(it.inLoop), bl(it.cache), q(it.fn), it.line, sep)
-		}
-		b.WriteString("] }\n\n")
-	}
-	b.WriteString("def handlers : List Handler := [")
-	for i, h := range hs {
-		if i > 0 {
-			b.WriteString(", ")
-		}
-		fmt.Fprintf(&b, "h_%s_%s", h.module, h.name)
-	}
-	b.WriteString("]\n\nend Comdex.Gen.Effects\n")
 	if *out == "" {
-		fmt.Print(b.String())
-		return
+		die("-out is required (or -dump)")
 	}
-	if err := os.MkdirAll(filepath.Dir(*out), 0o755); err != nil {
+	dir := filepath.Dir(*out)
+	if err := os.MkdirAll(dir, 0o755); err != nil {
 		die("%v", err)
 	}
-	if err := os.WriteFile(*out, []byte(b.String()), 0o644); err != nil {
-		die("%v", err)
+	base := strings.TrimSuffix(filepath.Base(*out), ".lean") // Effects
+	write := func(name, text string) {
+		if err := os.WriteFile(filepath.Join(dir, name+".lean"), []byte(text), 0o644); err != nil {
+			die("%v", err)
+		}
 	}
+	head := "/-! GENERATED by extract/effects from the comdex source tree — do not edit; regenerated on every run.\n" +
+		"Ordered effect skeleton of every covered handler. Item kinds: bank | write | call | guard (see extract/effects/main.go).\n" +
+		"Cond kinds: if | pos | case | loop | exit | continue | break | closure; pol = the condition holds on the item's path. -/\n"
+	// the record types
+	var t strings.Builder
+	t.WriteString(head)
+	t.WriteString("namespace Comdex.Gen.Effects\n\n")
+	t.WriteString("structure Cond where\n  kind : String\n  pol : Bool\n  text : String\n  deriving Repr, DecidableEq\n\n")
+	t.WriteString("structure Item where\n  kind : String\n  op : String\n  src : String\n  dst : String\n  denom : String\n  amount : String\n  args : List String\n  conds : List Cond\n  inLoop : Bool\n  cache : Bool\n  fn : String\n  line : Nat\n  deriving Repr, DecidableEq\n\n")
+	t.WriteString("structure Handler where\n  module : String\n  name : String\n  file : String\n  line : Nat\n  items : List Item\n  deriving Repr\n\n")
+	t.WriteString("end Comdex.Gen.Effects\n")
+	write(base+"T", t.String())
+	// one file per module (built in parallel; a property imports only the modules it ties)
+	var mods []string
+	byMod := map[string][]Handler{}
+	for _, h := range hs {
+		fk := h.module
+		if h.module == "auction" && strings.Contains(h.name, "Lend") {
+			fk = "auction_lend" // the first-generation lend auctions inline most of x/lend and x/liquidation: a file of their own
+		}
+		if _, ok := byMod[fk]; !ok {
+			mods = append(mods, fk)
+		}
+		byMod[fk] = append(byMod[fk], h)
+	}
+	for _, m := range mods {
+		var b strings.Builder
+		fmt.Fprintf(&b, "import Comdex.Gen.%sT\n", base)
+		b.WriteString(head)
+		b.WriteString("namespace Comdex.Gen.Effects\n\n")
+		for _, h := range byMod[m] {
+			fmt.Fprintf(&b, "def h_%s_%s : Handler := { module := %s, name := %s, file := %s, line := %d, items := [\n", h.module, h.name, q(h.module), q(h.name), q(h.file), h.line)
+			for i, it := range h.items {
+				sep := ","
+				if i == len(h.items)-1 {
+					sep = ""
+				}
+				fmt.Fprintf(&b, "  ⟨%s, %s, %s, %s, %s, %s, %s, %s, %s, %s, %s, %d⟩%s\n", q(it.kind), q(it.op), q(clip(it.src, 240)), q(clip(it.dst, 240)), q(clip(it.denom, 240)), q(clip(it.amount, 300)),
+					strList(it.args), condList(it.conds), bl(it.inLoop), bl(it.cache), q(it.fn), it.line, sep)
+			}
+			b.WriteString("] }\n\n")
+		}
+		fmt.Fprintf(&b, "def handlers_%s : List Handler := [", m)
+		for i, h := range byMod[m] {
+			if i > 0 {
+				b.WriteString(", ")
+			}
+			fmt.Fprintf(&b, "h_%s_%s", h.module, h.name)
+		}
+		b.WriteString("]\n\nend Comdex.Gen.Effects\n")
+		write(base+"_"+m, b.String())
+	}
+	// the root: written last (./check tests its presence)
+	var r strings.Builder
+	fmt.Fprintf(&r, "import Comdex.Gen.%sT\n", base)
+	for _, m := range mods {
+		fmt.Fprintf(&r, "import Comdex.Gen.%s_%s\n", base, m)
+	}
+	r.WriteString(head)
+	r.WriteString("namespace Comdex.Gen.Effects\n\ndef handlers : List Handler := ")
+	for i, m := range mods {
+		if i > 0 {
+			r.WriteString(" ++ ")
+		}
+		r.WriteString("handlers_" + m)
+	}
+	r.WriteString("\n\nend Comdex.Gen.Effects\n")
+	write(base, r.String())
 }
